@@ -129,7 +129,22 @@ let show_digest (d : dig) =
     "ctx=" ^ (if d.d_rctx then "T" else "F") ]
 
 (* ---- operations ---- *)
-let parse_op name (args : arg list) : op =
+let rec parse_op2 name (args : arg list) : op2 =
+  match name, args with
+  | "count", [u; n] -> OCount (a_z u, a_opt a_nat n)
+  | "pick_iter", [u; c] -> OPickIter (a_z u, a_opt (a_list a_nat) c)
+  | "pick", [u; c] -> OPick (a_z u, a_opt (a_list a_nat) c)
+  | "undeclare", [vs] -> OUndeclare (a_list a_nat vs)
+  | "descendants", [r] -> ODescendants (a_list a_z r)
+  | "succ", [u] -> OSucc (a_z u)
+  | "level_of_var", [v] -> OLevelOfVar (a_nat v)
+  | "var_at_level", [l] -> OVarAtLevel (a_nat l)
+  | "len", [] -> OLen
+  | "contains", [u] -> OContains (a_z u)
+  | "shutdown", [] -> OShutdown
+  | _ -> O1 (parse_op name args)
+
+and parse_op name (args : arg list) : op =
   let nn = a_pair a_nat a_nat in
   match name, args with
   | "new", [l] -> ONew (a_list nn l)
@@ -192,8 +207,18 @@ let () =
            print_endline ("digest\t" ^ show_digest (digest (world_get !world m)))
        | m :: name :: args ->
            let m = nat_of_int (int_of_string m) in
-           let o = parse_op name (List.map parse_arg args) in
-           let (w', r) = step !world m o in
+           let o = parse_op2 name (List.map parse_arg args) in
+           let (w', r) = step2 !world m o in
+           (* the order in which pick_iter yields is a set-iteration order in
+              the implementation: compare as a sorted list *)
+           let r = match name, r with
+             | "pick_iter", Ok (VL l) ->
+                 Ok (VL (List.sort (fun a b -> Stdlib.compare (show_value a) (show_value b)) l))
+             | ("support" | "undeclare" | "descendants"), Ok (VL l) ->
+                 (* Python sets: compared as sorted lists *)
+                 let key = function VN n -> int_of_nat n | VZ z -> int_of_z z | _ -> 0 in
+                 Ok (VL (List.sort (fun a b -> Stdlib.compare (key a) (key b)) l))
+             | _ -> r in
            world := w';
            if !full then
              print_endline (show_res r ^ "\t" ^ show_digest (digest (world_get w' m)))
